@@ -132,6 +132,14 @@ func (cls *CachedLocations) Open(ctx *Context, sys *System, name string, check b
 
 	var err error
 	if loc == nil || dead {
+		if cl, have := cls.locs[name]; have {
+			// The entry exists but has no location yet: another
+			// request is loading it right now.  Share that entry
+			// (Get waits for the loader) instead of replacing it and
+			// loading the location a second time.
+			cls.Unlock()
+			return cl.Get(ctx, sys, name, check)
+		}
 		Log(INFO, ctx, "CachedLocations.Open", "name", name, "cached", "empty")
 		ctl := sys.Control()
 		ttl := ctl.LocationTTL
